@@ -389,7 +389,7 @@ func (s *Solver) Check(extra []*Term, timeoutMs int) Result {
 	}
 	nerr := len(s.Errors)
 	t0 := time.Now()
-	s.waitMs = timeoutMs + 5000
+	s.waitMs = timeoutMs + 1500
 	if s.IntW > 0 && s.kind != "cvc5" {
 		// incremental mode skips bit-blasting preprocessing; apply the tactic explicitly
 		s.send(fmt.Sprintf("(check-sat-using (try-for (then simplify propagate-values solve-eqs bit-blast sat) %d))", timeoutMs))
